@@ -97,7 +97,7 @@ func c21sepClass(s string) string {
 func TestC21(t *testing.T) {
 	rep := lib.NewReport("C21", "exploration")
 	defer rep.Finish(t)
-	rep.Rule = "for every pair g1<g2 of characters in '0'..'~' (+ one non-ASCII): values holding exactly the characters of ['0',g2) except g1 (which drives the separator choice to (g1,g2) unless fixed strings interfere), placed in each parameter field in turn x sleep flag x 0..2 bundles/databases x optional fields empty or not; FUSE and PG encoders; oracle: encoding fails, or the reference decoder (documented format + shell decoder constraints) returns exactly the non-empty parameters and the flag; distinct = distinct encoded strings"
+	rep.Rule = "for every pair g1<g2 of characters in '0'..'~' (+ one non-ASCII): values holding exactly the characters of ['0',g2) except g1 (which drives the separator choice to (g1,g2) unless fixed strings interfere), placed in each parameter field in turn x sleep flag x 0..2 bundles/databases (+ a bundle without any optional parameter) x optional fields empty or not; FUSE and PG encoders; oracle: encoding fails, or the reference decoder (documented format + shell decoder constraints) returns exactly the non-empty parameters and the flag; distinct = distinct encoded strings"
 	var chars []rune
 	for c := '0'; c <= '~'; c++ {
 		chars = append(chars, c)
@@ -199,6 +199,11 @@ func TestC21(t *testing.T) {
 							}
 							bundles = append(bundles, bm)
 							want["dm_fuse_bd_"+bm["name"]] = w
+						}
+						if nb == 2 && pos < 3 {
+							// a bundle with no optional parameter at all: its variable holds the two separators and nothing else
+							bundles = append(bundles, map[string]string{"name": "idle"})
+							want["dm_fuse_bd_idle"] = map[string]string{}
 						}
 						p := c21fuse(sleep, glob[0], glob[1], glob[2], bundles)
 						var enc map[string]string
